@@ -7,6 +7,7 @@ import (
 	"fmt"
 	"net"
 	"sort"
+	"strings"
 	"sync"
 	"testing"
 	"time"
@@ -735,7 +736,7 @@ func checkE2E(c e2eCase) (nt bool, v *verdict) {
 		lc.c.Close()
 	}
 	live = nil
-	deadline := time.Now().Add(5 * time.Second)
+	deadline := time.Now().Add(15 * time.Second)
 	for {
 		var bad *host.Host
 		for _, h := range handed {
@@ -748,7 +749,19 @@ func checkE2E(c e2eCase) (nt bool, v *verdict) {
 			break
 		}
 		if time.Now().After(deadline) {
-			return nt, &verdict{"conn-count-not-zero-at-quiescence", fmt.Sprintf("5s after every client connection was closed host %s still counts %d active connection(s): least-connection keeps treating it as busier than it is", bad.Addr, bad.ConnCount())}
+			stuck := ""
+			for _, g := range strings.Split(vh.Stacks(), "\n\n") {
+				if strings.Contains(g, "proc/tcp.(*tcpProc).HandleConn") || strings.Contains(g, "proc/tcp.(*tcpProc).pipeConn") {
+					if len(g) > 900 {
+						g = g[:900]
+					}
+					stuck += "\n--\n" + g
+					if len(stuck) > 4000 {
+						break
+					}
+				}
+			}
+			return nt, &verdict{"conn-count-not-zero-at-quiescence", fmt.Sprintf("15s after every client connection was closed host %s still counts %d active connection(s): least-connection keeps treating it as busier than it is; connection handlers still running:%s", bad.Addr, bad.ConnCount(), stuck)}
 		}
 		time.Sleep(5 * time.Millisecond)
 	}
